@@ -36,7 +36,7 @@
        amp = sigma * jnp.sqrt(1.0 - drift**2)
        return scalar_gauss_markov_process(xi, x0, drift, amp)
 *)
-From Coq Require Import QArith Qcanon List Bool ZArith.
+From Coq Require Import QArith Qcanon Qabs List Bool ZArith.
 Import ListNotations.
 Open Scope Qc_scope.
 
